@@ -75,6 +75,20 @@ func allUEscaped(s string) []byte {
 	return append(b, '"')
 }
 
+// allUEscapedLower is allUEscaped with lower-case hex digits (the two cases are recognised by different code).
+func allUEscapedLower(s string) []byte {
+	b := []byte{'"'}
+	for _, r := range s {
+		if r >= 0x10000 {
+			r -= 0x10000
+			b = append(b, fmt.Sprintf(`\u%04X\u%04x`, 0xD800+(r>>10), 0xDC00+(r&0x3FF))...)
+		} else {
+			b = append(b, fmt.Sprintf(`\u%04x`, r)...)
+		}
+	}
+	return append(b, '"')
+}
+
 // hasRaw reports whether lit contains a raw character that the escape options forbid.
 func hasRaw(lit []byte, html, js bool) string {
 	if html && bytes.ContainsAny(lit, "<>&") {
@@ -415,8 +429,8 @@ func (c *checker) goString(s string, fields bool) (msg string) {
 				}
 				continue
 			}
-			// raw literal paths, two spellings of the same string: minimal and all-\u
-			for si, spelled := range [][]byte{refjson.Quote(nil, s, false, false), allUEscaped(s)} {
+			// raw literal paths, three spellings of the same string: minimal, all-\u with upper-case and with lower-case hex digits
+			for si, spelled := range [][]byte{refjson.Quote(nil, s, false, false), allUEscaped(s), allUEscapedLower(s)} {
 				for _, preserve := range []bool{false, true} {
 					o2 := opts
 					if preserve {
@@ -541,6 +555,24 @@ func (c *checker) literal(lit []byte) (msg string) {
 			}
 			if tok.Kind() != '"' || tok.String() != want {
 				return fmt.Sprintf("ReadToken.String() = %q, want %q", tok.String(), want)
+			}
+			// D6 the token handed straight to an Encoder (valid until the next read call): the encoder must apply its
+			// own options - minimal form; ill-formed UTF-8 refused, or replaced when the encoder allows it
+			for _, encAllow := range []bool{false, true} {
+				c.buf.Reset()
+				c.enc.Reset(&c.buf, jsontext.AllowInvalidUTF8(encAllow))
+				werr := c.enc.WriteToken(tok)
+				got := bytes.TrimSuffix(c.buf.Bytes(), []byte("\n"))
+				switch {
+				case okStrict || encAllow:
+					if exp := refjson.Quote(nil, want, false, false); werr != nil || !bytes.Equal(got, exp) {
+						return fmt.Sprintf("WriteToken of the token read from %q (decoder AllowInvalidUTF8=%v, encoder AllowInvalidUTF8=%v) = %q (%v), want %q", lit, allow, encAllow, got, werr, exp)
+					}
+				default:
+					if werr == nil {
+						return fmt.Sprintf("WriteToken of the token read from %q (ill-formed UTF-8) is accepted by an Encoder without AllowInvalidUTF8: wrote %q", lit, got)
+					}
+				}
 			}
 		} else if ok {
 			return fmt.Sprintf("ReadToken rejected %q (AllowInvalidUTF8=%v): %v", lit, allow, err)
